@@ -999,6 +999,14 @@ func runBehaviour(steps []bStep, auth string, maxqos int, res *Result) (result *
 			if err := r.svr.Publish(msg); err != nil {
 				return &brokerMismatch{where + ": Server.Publish: " + err.Error(), "C01"}
 			}
+			// the call has returned: the application uses its message object and its payload buffer for something else
+			// (what the broker keeps of it - a retained message - must be the broker's own)
+			if pl := msg.Payload(); len(pl) > 0 {
+				for i := range pl {
+					pl[i] = 'Z'
+				}
+			}
+			msg.SetTopic([]byte("zz/reused"))
 		case "apisubscribe":
 			l := r.locals[a.L]
 			if l == nil {
